@@ -15,6 +15,7 @@ import (
 	"verifharness/iox"
 	"verifharness/refinflate"
 	"verifharness/stats"
+	"verifharness/synth"
 )
 
 // C03: malformed input is rejected: no panic, no hang, no invented data, stdlib errors.
@@ -53,6 +54,39 @@ func drawMalformed(t *rapid.T) (s StreamSpec, prefix bool) {
 		s = drawValidStream(t, 32<<10)
 		s.Mut = []Mutation{{Kind: "trunc", Pos: rapid.IntRange(0, 1<<20).Draw(t, "cut")}}
 		return s, true
+	case 4:
+		// a faulty stream that is also cut short or damaged near the fault / in its first header
+		s = drawFaultyStream(t)
+		if rapid.Bool().Draw(t, "cutfaulty") {
+			s.Synth.Tail = 0
+			s.Mut = []Mutation{{Kind: "trunc", Pos: -1 - rapid.IntRange(0, 12).Draw(t, "cutback")}}
+		} else {
+			s.Mut = []Mutation{{Kind: "flip", Pos: rapid.IntRange(0, 400).Draw(t, "hdrbit")}}
+		}
+		return s, false
+	case 6:
+		// header-level fault (or none) in a dynamic block, input cut inside that header
+		hdrFaults := []string{synth.FMissingEOB, synth.FMissingEOB, synth.FOverLit, synth.FOverDist, synth.FOverCL, synth.FRepeatFirst, synth.FRunPast, synth.FHLIT, synth.FIncompleteLit, ""}
+		sy := drawSynth(t)
+		sy.Blocks = sy.Blocks[:1]
+		sy.Blocks[0].Type = 2
+		if k := rapid.SampledFrom(hdrFaults).Draw(t, "hdrfault"); k != "" {
+			sy.Fault = &synth.Fault{Kind: k, Block: 0, At: 0, Arg: rapid.IntRange(0, 127).Draw(t, "farg")}
+		}
+		s = StreamSpec{Kind: "synth", Synth: sy}
+		s.Mut = []Mutation{{Kind: "trunchdr", Pos: rapid.IntRange(0, 1000).Draw(t, "hdrcut")}}
+		return s, false
+	case 5:
+		// a valid stream damaged in its first 50 bytes (block header region) and optionally cut right there
+		s = drawValidStream(t, 8<<10)
+		k := rapid.IntRange(1, 3).Draw(t, "nhdrmut")
+		for i := 0; i < k; i++ {
+			s.Mut = append(s.Mut, Mutation{Kind: "flip", Pos: rapid.IntRange(0, 400).Draw(t, "hdrbit")})
+		}
+		if rapid.Bool().Draw(t, "cuthdr") {
+			s.Mut = append(s.Mut, Mutation{Kind: "trunc", Pos: rapid.IntRange(1, 80).Draw(t, "cuthdrpos")})
+		}
+		return s, false
 	default:
 		return drawFaultyStream(t), false
 	}
@@ -309,6 +343,40 @@ func TestC03Ex(t *testing.T) {
 			}
 		}
 	}
+	// second family: dynamic blocks with a header-level fault, cut at every byte
+	hdrFaults := []string{synth.FMissingEOB, synth.FOverLit, synth.FOverDist, synth.FIncompleteLit, synth.FRunPast, synth.FRepeatFirst}
+	nf := 60
+	if thorough() {
+		nf = 240
+	}
+	for i := 0; i < nf; i++ {
+		b := synth.BlockSpec{Type: 2, N: 3 + i%40, Seed: uint64(1000 + i), Alpha: []int{2, 16, 64, 200}[i%4], MatchPct: []int{0, 30}[i%2],
+			Chain: (i * 17) % 101, ExtraLit: []int{0, 3, 40}[i%3], ExtraDist: i % 4, DistCode: i % 3, RLE: 1 + i%2, PadLit: i % 6, FullHCLEN: i%2 == 0, ExtraCL: i % 5}
+		sy := &synth.Stream{Blocks: []synth.BlockSpec{b}, Fault: &synth.Fault{Kind: hdrFaults[i%len(hdrFaults)], Block: 0, At: 0, Arg: i}}
+		s := StreamSpec{Kind: "synth", Synth: sy}
+		z, _, _, err := s.Build()
+		if err != nil {
+			t.Fatalf("harness: %v", err)
+		}
+		if len(z) > 400 {
+			continue
+		}
+		for cut := 0; cut <= len(z); cut++ {
+			c := C03Case{Input: s, Reads: []int{1 + (cut%2)*4095}}
+			if cut < len(z) {
+				c.Input.Mut = []Mutation{{Kind: "trunc", Pos: cut}}
+			}
+			done := begin("C03", c)
+			labels, nt, err := checkC03(c)
+			done()
+			if err != nil {
+				saveLast("C03", c, err)
+				t.Fatalf("C03 violated (faulty-header truncation enumeration): %v", err)
+			}
+			stats.Record("C03", stats.Digest(c), nt, append(labels, "faulty-header-truncation-enumeration"), func() any { return c })
+			count++
+		}
+	}
 	stats.Exhaustive("C03", fmt.Sprintf("every truncation point of %d fixed small valid streams (<= %d bytes) x {all at once, 1-byte source and 1-byte reads}", nstreams, limit), count)
 }
 
@@ -321,4 +389,59 @@ func init() {
 		_, _, err := checkC03(c)
 		return err
 	}
+}
+
+// TestC03Sweep: for a few tiny streams with dynamic headers, every single-bit flip in the
+// first 40 bytes combined with every truncation point (two-fault sweep, enumerated).
+func TestC03Sweep(t *testing.T) {
+	count := 0
+	n := 6
+	if thorough() {
+		n = 24
+	}
+	shard, nshards := envInt("VERIF_SHARD", 0), envInt("VERIF_NSHARDS", 1)
+	for i := 0; i < n; i++ {
+		if i%nshards != shard {
+			continue
+		}
+		b := synth.BlockSpec{Type: 2, N: 4 + i%9, Seed: uint64(500 + i), Alpha: []int{3, 16, 200}[i%3], MatchPct: []int{0, 40}[i%2],
+			Chain: (i * 29) % 101, ExtraLit: []int{0, 4, 30}[i%3], ExtraDist: i % 3, DistCode: i % 3, RLE: 1 + i%2, PadLit: i % 4, ExtraCL: i % 4}
+		s := StreamSpec{Kind: "synth", Synth: &synth.Stream{Blocks: []synth.BlockSpec{b}}}
+		z, _, _, err := s.Build()
+		if err != nil {
+			t.Fatal(err)
+		}
+		if len(z) > 90 {
+			continue
+		}
+		nb := len(z) * 8
+		if nb > 320 {
+			nb = 320
+		}
+		for bit := -1; bit < nb; bit++ {
+			for cut := 2; cut <= len(z); cut++ {
+				c := C03Case{Input: s, Reads: []int{1}}
+				if bit >= 0 {
+					c.Input.Mut = append(c.Input.Mut, Mutation{Kind: "flip", Pos: bit})
+				}
+				if cut < len(z) {
+					c.Input.Mut = append(c.Input.Mut, Mutation{Kind: "trunc", Pos: cut})
+				}
+				done := begin("C03", c)
+				labels, nt, err := checkC03(c)
+				done()
+				if err != nil {
+					saveLast("C03", c, err)
+					t.Fatalf("C03 violated (bit-flip x truncation sweep): %v", err)
+				}
+				if bit%16 == 0 {
+					stats.Record("C03", stats.Digest(c), nt, append(labels, "flip-x-truncation-sweep"), func() any { return c })
+				} else {
+					stats.Record("C03", stats.Digest(c), nt, nil, nil)
+				}
+				count++
+			}
+		}
+	}
+	stats.Exhaustive("C03", fmt.Sprintf("%d tiny dynamic-header streams: every single-bit flip in the first 40 bytes x every truncation point (this shard's share)", n), count)
 }
